@@ -4,7 +4,7 @@
 From Coq Require Import List NArith ZArith Bool.
 Import ListNotations.
 Require Import Verif.Lib.Wire Verif.Gen.Facts_C03 Verif.Model.C03 Verif.Proofs.C03 Verif.Gen.Facts_C14 Verif.Model.C14
-               Verif.Proofs.C14 Verif.Proofs.C14_b Verif.Proofs.C14_c.
+               Verif.Proofs.C14 Verif.Proofs.C14_b Verif.Proofs.C14_c Verif.Proofs.C03_ov.
 
 (* the regenerated constants of the anchored code (hidden attribute names, what is assigned inside and after
    the with-block, request_iface.combined, the classes caught by the tween / _error_handler /
@@ -204,6 +204,38 @@ Theorem C14_lookup_ok_partial : forall b ao regs W ri,
               (call_view (w_reg W) exc_classifier_id (exc_request (spec_params_b b) W ri e)) = true.
 Proof. exact lookup_ok_register_all. Qed.
 Print Assumptions C14_lookup_ok_partial.
+
+(* the same WITHOUT distinct keys (overriding declarations allowed; C03's override-tolerant lookup theorem):
+   registrations with equal slot and phash must have equal order and predicate texts -- [key_ok_b], an executable
+   check (sound for C03's key_order / key_faithful), evaluated on every generated world by the check *)
+Theorem C14_lookup_ok_overrides_partial : forall b ao regs W ri,
+  w_reg W = register_all ao regs ->
+  Forall reg_wf regs -> key_ok_b regs = true -> no_accept regs -> order_respects regs ->
+  (forall e, NoDup (q_req_sro (exc_request (spec_params_b b) W ri e))) ->
+  (forall e, NoDup (x_sro (find_exc (w_excs W) e))) ->
+  forall e, spec_ok exc_classifier_id regs (exc_request (spec_params_b b) W ri e)
+              (call_view (w_reg W) exc_classifier_id (exc_request (spec_params_b b) W ri e)) = true.
+Proof. exact lookup_ok_overrides. Qed.
+Print Assumptions C14_lookup_ok_overrides_partial.
+
+Theorem C14_key_ok_sound : forall regs, key_ok_b regs = true -> key_order regs /\ key_faithful regs.
+Proof. exact key_ok_sound. Qed.
+Print Assumptions C14_key_ok_sound.
+
+(* for the registrations the directives produce only the computable key check, the size bounds and the oracle
+   resolution orders remain as premises *)
+Theorem C14_lookup_ok_regs_upto_partial : forall b ao P names nm user ph W ri,
+  w_reg W = register_all ao (regs_upto P names nm user ph) ->
+  (length names <= 20)%nat ->
+  Forall (fun d => a_accept (d_args d) = None) user ->
+  Forall (fun v => (n_preds v <= 400)%nat) (regs_upto P names nm user ph) ->
+  key_ok_b (regs_upto P names nm user ph) = true ->
+  (forall e, NoDup (q_req_sro (exc_request (spec_params_b b) W ri e))) ->
+  (forall e, NoDup (x_sro (find_exc (w_excs W) e))) ->
+  forall e, spec_ok exc_classifier_id (regs_upto P names nm user ph) (exc_request (spec_params_b b) W ri e)
+              (call_view (w_reg W) exc_classifier_id (exc_request (spec_params_b b) W ri e)) = true.
+Proof. exact lookup_ok_regs_upto. Qed.
+Print Assumptions C14_lookup_ok_regs_upto_partial.
 
 (* ... and those hypotheses (other than distinct keys) for the registrations the directives produce *)
 Theorem C14_regs_upto_hyps : forall P names nm user ph,
